@@ -269,3 +269,65 @@ def oracle_c01(case):
             elif fin != "-":
                 return ("key %s: the chain ends with a delete at %d but the final read shows %s" % (k, prev[0], fin), "final-mismatch")
     return None
+
+
+def oracle_cf_justified(case):
+    """C01, last clause: a condition is reported failed only if the key really differed from the expectation at
+    some moment while the request was in flight. Conservative (never alarms on a justifiable conflict): the key's
+    states are the chain of successful writes; a state may have been current at any moment between the START of the
+    request that produced it and the END of the request that superseded it. Keys touched by a request whose outcome
+    is unknown, or by fault directives, are skipped."""
+    order, revs = parse(case)
+    if any(rq.end is None for rq in order):
+        return None
+    if any(" f=" in ln for ln in case.lines):
+        return None
+    skip = set()
+    per_key = {}
+    for rq in order:
+        k = rq.req[1]
+        o = rq.out or []
+        if len(o) >= 2 and o[1] == "ok":
+            per_key.setdefault(k, []).append((int(o[2]), rq))
+        elif len(o) >= 2 and o[1] == "err":
+            skip.add(k)
+    for rq in order:
+        o = rq.out or []
+        if len(o) < 2 or o[1] != "cf":
+            continue
+        k = rq.req[1]
+        if k in skip:
+            continue
+        verb = rq.req[0]
+        exp = int(rq.req[3]) if verb == "update" else (int(rq.req[2]) if verb == "delete" else 0)
+        ws = sorted(per_key.get(k, []), key=lambda x: x[0])
+        # states: (live?, rev, produced_by, superseded_by)
+        states = [(False, 0, None, ws[0][1] if ws else None)]
+        for j, (rev, w) in enumerate(ws):
+            states.append((w.req[0] != "delete", rev, w, ws[j + 1][1] if j + 1 < len(ws) else None))
+
+        def matches(live, rev):
+            if verb == "create" or (verb == "update" and exp == 0):
+                return not live
+            if verb == "update":
+                return live and rev == exp
+            return live and (exp == 0 or rev == exp)
+
+        possible = []
+        for live, rev, w, nxt in states:
+            if w is not None and w.start > rq.end:
+                continue          # produced only after the request had returned
+            if nxt is not None and nxt.end < rq.start:
+                continue          # superseded before the request began
+            possible.append((live, rev))
+        justified = any(not matches(l, r) for (l, r) in possible)
+        if verb == "delete" and exp == 0 and len(possible) >= 2:
+            # an unguarded delete conditions its commit on the revision it read: a change while it was in flight
+            # is a real difference from that expectation
+            justified = True
+        if not justified:
+            return ("request %s `%s` was answered 'condition failed' (%s), but at no moment while it was in flight did key %s "
+                    "differ from what it expected: its states were %s" % (
+                        rq.cid, " ".join(rq.req), " ".join(o), k,
+                        [("live" if l else "absent/deleted", r) for (l, r, _, _) in states]), "unjustified-conflict")
+    return None
